@@ -13,7 +13,7 @@
               EF_rcds, ends_law (conserved by every call), csched_E, progress_law
      Part C   C03_stream (+ reach, reach_inv), C04_stream, C04_stream_rcds(_exact), C05_stream,
               C02_delivery(_exact), C02_stream_end, C02_end_reported, C18_only_active(_rcds)
-              and a worked instance (exf_*) showing the hypotheses are satisfiable. *)
+              and a worked instance (the exf_ examples) showing the hypotheses are satisfiable. *)
 From Coq Require Import ZArith ZifyBool ZifyNat ZifyN.
 From FV Require Import Base.Bytes Base.BytesLemmas Gen.Generated Codec.Varint Codec.VarintProofs
   Codec.NV Codec.NVProofs Codec.Header Codec.Bodies Codec.Vars Codec.ProtoProofs
